@@ -48,6 +48,8 @@ func childCmd(t *rapid.T, base string, label string) string {
 	return c
 }
 
+var FarFuture = []int64{10413792000, 16725225600, 32503680000, 253402300799, (1 << 53) - 1}
+
 var HourOffsets = []int64{3600, 7200, 86400, 365 * 86400, 100 * 365 * 86400}
 
 func i64(v int64) *int64 { return &v }
@@ -241,6 +243,11 @@ func DrawConforming(t *rapid.T, o GenOpt) Case {
 			case 3:
 				l.Exp = i64(rapid.SampledFrom(HourOffsets).Draw(t, "exp"))
 				l.Nbf = i64(-rapid.SampledFrom(HourOffsets).Draw(t, "nbf"))
+			}
+			if rapid.IntRange(0, 5).Draw(t, "farexp") == 0 {
+				// "never expires" in practice: years 2300, 2500, 3000, 9999, and the largest admissible timestamp
+				l.Exp = nil
+				l.ExpAbs = i64(rapid.SampledFrom(FarFuture).Draw(t, "farexpv"))
 			}
 		}
 		if o.Irrelevant {
